@@ -157,6 +157,8 @@ class Program:
         m = self.module(relpath)
         if qualname not in m.functions:
             raise AnalysisError(rule, f"{relpath}::{qualname}", "anchored function no longer exists")
+        if rule != "E0":
+            self.__dict__.setdefault("requested", set()).add((relpath, qualname))
         return m.functions[qualname]
 
     def has_func(self, relpath, qualname):
